@@ -67,12 +67,51 @@ def run_contract_case(rng, spec, setup, tests, overrides=None, dump=False, funsi
     return out, d
 
 
-def judge_pass(rng, spec, setup, t, panic_codes, res, nrand=6, lengths=None):
-    """C03 oracle for a test reported PASS without warning: no admissible replay may fail.  Returns a witness or None."""
+def within_bounds(t, v, name, bounds):
+    """are all dynamic lengths inside the candidate lists halmos was configured with (and prints as bounds)?"""
+    k = t[0]
+    if k in ("bytes", "string"):
+        return len(v) in bounds["bytes"](name)
+    if k == "array":
+        if t[2] is None and len(v) not in bounds["array"](name):
+            return False
+        return all(within_bounds(t[1], x, f"{name}[{i}]", bounds) for i, x in enumerate(v))
+    if k == "tuple":
+        return all(within_bounds(x, y, f"{name}.f{i}" if name else f"f{i}", bounds) for i, (x, y) in enumerate(zip(t[1], v)))
+    return True
+
+
+def mk_bounds(overrides):
+    al = (overrides or {}).get("array_lengths") or {}
+    da = (overrides or {}).get("default_array_lengths") or [0, 1, 2]
+    db = (overrides or {}).get("default_bytes_lengths") or [0, 65, 1024]
+    return {"array": lambda n: al.get(n, da), "bytes": lambda n: al.get(n, db)}
+
+
+def judge_pass(rng, spec, setup, t, panic_codes, res, nrand=6, lengths=None, overrides=None):
+    """C03 oracle for a test reported PASS without warning: no admissible replay (argument values within the
+    parameter bounds halmos reports) may fail.  Returns a witness or None."""
+    bounds = mk_bounds(overrides)
     cands = [list(v) for v in t.planted]
     for _ in range(nrand):
         cands.append(random_args(rng, t.fn, lengths))
+    # every configured length of every top-level dynamic parameter
+    for i, (n, ty) in enumerate(t.fn.params):
+        if ty[0] in ("bytes", "string", "array") and (ty[0] != "array" or ty[2] is None):
+            for L in (bounds["bytes"](n) if ty[0] != "array" else bounds["array"](n)):
+                if L > 2048:
+                    continue
+                base = list(t.planted[0]) if t.planted else random_args(rng, t.fn)
+                src = base[i]
+                if ty[0] == "array":
+                    base[i] = (list(src) + [abi.random_value(rng, ty[1]) for _ in range(L)])[:L]
+                else:
+                    base[i] = (bytes(src) + bytes(rng.getrandbits(8) for _ in range(L)))[:L]
+                cands.append(base)
     for vals in cands:
+        if not all(within_bounds(ty, v, n, bounds) for (n, ty), v in zip(t.fn.params, vals)):
+            res["counters"]["replay_candidates_outside_bounds"] += 1
+            continue
         rp = A.replay(spec, t.fn, vals, setup_fn=setup)
         res["counters"]["replays"] += 1
         if rp.status == "unsupported":
